@@ -658,6 +658,7 @@ def run_fuzz(case, res):
 
 
 def run_case(case, res):
+    harness.JUDGE_CALLBACK_ESCAPES[0] = True
     k = case["kind"]
     if k == "nested":
         rng = random.Random("c02n/%s/%s" % (case["seed"], case["name"]))
